@@ -45,65 +45,58 @@ structure Agrees (cf : CFile) (m : Map Val) : Prop where
 
 theorem C10_build_wf_or_error (ns : Nat) (hns : 0 < ns) (cf : CFile) :
     (∃ e, build ns cf = .err e) ∨ (∃ m, build ns cf = .ok m ∧ WF 3 m ∧ Agrees cf m) := by
-  by_cases hd : cf.dim = 2
-  swap
-  · exact .inl ⟨_, by unfold build; rw [if_pos hd]⟩
-  have hdn : ¬ cf.dim ≠ 2 := not_not.mpr hd
+  by_cases hd' : ¬ (cf.dim = 2)
+  · exact .inl ⟨_, by unfold build; rw [if_pos hd']⟩
+  have hd : cf.dim = 2 := Classical.not_not.mp hd'
+  have hdn : ¬ cf.dim ≠ 2 := fun h => h hd
   match hb : cf.betas with
-  | [] => exact .inl ⟨_, by unfold build; rw [if_neg hdn]; simp only [hb]⟩
-  | [_] => exact .inl ⟨_, by unfold build; rw [if_neg hdn]; simp only [hb]⟩
-  | [_, _] => exact .inl ⟨_, by unfold build; rw [if_neg hdn]; simp only [hb]⟩
-  | _ :: _ :: _ :: _ :: _ => exact .inl ⟨_, by unfold build; rw [if_neg hdn]; simp only [hb]⟩
+  | [] => exact .inl ⟨_, by unfold build; rw [if_neg hdn]; simp only [hb]; rfl⟩
+  | [_] => exact .inl ⟨_, by unfold build; rw [if_neg hdn]; simp only [hb]; rfl⟩
+  | [_, _] => exact .inl ⟨_, by unfold build; rw [if_neg hdn]; simp only [hb]; rfl⟩
+  | _ :: _ :: _ :: _ :: _ => exact .inl ⟨_, by unfold build; rw [if_neg hdn]; simp only [hb]; rfl⟩
   | [l0, l1, l2] =>
-    by_cases h0 : l0.length = cf.nd + 1
-    swap
-    · exact .inl ⟨_, by unfold build; rw [if_neg hdn]; simp only [hb]; rw [if_pos h0]⟩
-    by_cases h1 : l1.length = cf.nd + 1
-    swap
+    by_cases h0' : ¬ (l0.length = cf.nd + 1)
+    · exact .inl ⟨_, by unfold build; rw [if_neg hdn]; simp only [hb]; rw [if_pos h0']⟩
+    have h0 : l0.length = cf.nd + 1 := Classical.not_not.mp h0'
+    by_cases h1' : ¬ (l1.length = cf.nd + 1)
     · exact .inl ⟨_, by
         unfold build; rw [if_neg hdn]; simp only [hb]
-        rw [if_neg (not_not.mpr h0), if_pos h1]⟩
-    by_cases h2 : l2.length = cf.nd + 1
-    swap
+        rw [if_neg (fun h => h h0), if_pos h1']⟩
+    have h1 : l1.length = cf.nd + 1 := Classical.not_not.mp h1'
+    by_cases h2' : ¬ (l2.length = cf.nd + 1)
     · exact .inl ⟨_, by
         unfold build; rw [if_neg hdn]; simp only [hb]
-        rw [if_neg (not_not.mpr h0), if_neg (not_not.mpr h1), if_pos h2]⟩
-    -- common prefix of `build`
-    have hpre : build ns cf =
-        match parseRows l0 l1 l2 with
-        | .error e => .err e
-        | .ok rows =>
-          if !nullOK (tbl rows) then .err (errInconsistent 4) else
-          if !rangeOK (tbl rows) (cf.nd + 1) then .err (errInconsistent 5) else
-          match (List.range' 1 cf.nd).findSome? (dartCheck (tbl rows)) with
-          | some e => .err e
-          | none =>
-            match setLoop (tbl rows) (List.range' 1 cf.nd) (Map.empty 3 ns (cf.nd + 1)) with
-            | .ok m1 =>
-              match unusedLoop ((cf.unused.getD []).flatten) m1 with
-              | .ok m2 => verticesLoop (cf.vertices.getD []) m2
-              | o => o
-            | o => o := by
-      unfold build
-      rw [if_neg hdn]
-      simp only [hb]
-      rw [if_neg (not_not.mpr h0), if_neg (not_not.mpr h1), if_neg (not_not.mpr h2)]
-    rw [hpre]
+        rw [if_neg (fun h => h h0), if_neg (fun h => h h1), if_pos h2']⟩
+    have h2 : l2.length = cf.nd + 1 := Classical.not_not.mp h2'
     cases hr : parseRows l0 l1 l2 with
-    | error e => exact .inl ⟨e, rfl⟩
+    | error e =>
+      exact .inl ⟨e, by
+        unfold build
+        rw [if_neg hdn]
+        simp only [hb]
+        rw [if_neg (fun h => h h0), if_neg (fun h => h h1), if_neg (fun h => h h2)]
+        simp only [hr]⟩
     | ok rows =>
-      simp only
-      by_cases hnull : nullOK (tbl rows) = true
-      swap
-      · exact .inl ⟨_, by simp [hnull]⟩
-      by_cases hrange : rangeOK (tbl rows) (cf.nd + 1) = true
-      swap
-      · exact .inl ⟨_, by simp [hnull, hrange]⟩
+      have hpre : build ns cf = buildRows ns cf rows := by
+        unfold build
+        rw [if_neg hdn]
+        simp only [hb]
+        rw [if_neg (fun h => h h0), if_neg (fun h => h h1), if_neg (fun h => h h2)]
+        simp only [hr]
+      rw [hpre]
+      unfold buildRows
+      by_cases hnull' : ¬ (nullOK (tbl rows) = true)
+      · exact .inl ⟨errInconsistent 4, by simp [hnull']⟩
+      have hnull : nullOK (tbl rows) = true := Classical.not_not.mp hnull'
+      by_cases hrange' : ¬ (rangeOK (tbl rows) (cf.nd + 1) = true)
+      · exact .inl ⟨errInconsistent 5, by simp [hnull, hrange']⟩
+      have hrange : rangeOK (tbl rows) (cf.nd + 1) = true := Classical.not_not.mp hrange'
       simp only [hnull, hrange, Bool.not_true, Bool.false_eq_true, if_false]
       cases hchk : (List.range' 1 cf.nd).findSome? (dartCheck (tbl rows)) with
       | some e => exact .inl ⟨e, rfl⟩
       | none =>
         simp only
+        unfold buildMap
         -- the table and what the checks say about it
         let T := tbl rows
         have hinv := parseRows_inv l0 l1 l2 rows hr (h0.trans h1.symm) (h1.trans h2.symm)
@@ -355,9 +348,11 @@ def okMap : Out Err (Map Val) → Option (Map Val)
   | .ok m => some m
   | _ => none
 
-example : ((okMap (load 1 fileGood)).map fun m =>
-    (m.n, m.β 1 1, m.β 0 2, m.β 2 3, m.β 2 4, m.unused 5, m.att 0 1, m.att 0 2)) =
-    some (6, 2, 1, 4, 3, true, some (.pt 7 7 0), none) := by decide +kernel
+example : ((okMap (load 1 fileGood)).map fun m => (m.n, m.β 1 1, m.β 0 2, m.β 2 3, m.β 2 4, m.unused 5)) =
+    some (6, 2, 1, 4, 3, true) := by decide +kernel
+
+example : ((okMap (load 1 fileGood)).map fun m => (m.att 0 1, m.att 0 2)) =
+    some (some (.pt 7 7 0), none) := by decide +kernel
 
 example : ∃ cf m, parseFile fileGood = .ok cf ∧ load 1 fileGood = .ok m ∧ WF 3 m ∧ Agrees cf m := by
   have hl : (match parseFile fileGood with | .ok _ => true | .error _ => false) = true := by
